@@ -33,11 +33,20 @@ def catalog():
     add('nuisance', like='nuis', n_live=40, n_batch=20, n_eff=100, f_live=0.1)
     add('nuisance3_net', like='nuis', n_dim=3, n_live=40, n_batch=20, n_eff=60, f_live=0.1,
         n_networks=1, discard=True)
+    add('two_split', like='two', n_live=60, n_batch=20, n_eff=150, f_live=0.1, n_points_min=5,
+        split_threshold=1.0)
+    add('ring_split', like='ring', n_live=80, n_batch=20, n_eff=150, f_live=0.1, n_points_min=5,
+        split_threshold=0.3)
+    add('ring_split_net', like='ring', n_live=80, n_batch=20, n_eff=80, f_live=0.1, n_points_min=5,
+        split_threshold=0.3, n_networks=1, discard=True)
+    add('const', like='const', n_live=30, n_batch=15, n_eff=100, f_live=0.1)
     add('half', like='half', n_live=40, n_batch=20, n_eff=120, f_live=0.1)
     add('plateau', like='plateau', n_live=40, n_batch=20, n_eff=120, f_live=0.1)
     add('wrap', like='wrap', n_live=40, n_batch=20, n_eff=120, f_live=0.1, periodic=[0])
     add('wrap_net', like='wrap', n_live=40, n_batch=20, n_eff=60, f_live=0.1, periodic=[0],
         n_networks=1, discard=True)
+    add('wrap_pool_s', like='wrap', n_live=40, n_batch=20, n_eff=100, f_live=0.1, periodic=[0],
+        pool_s=2)
     add('g3_pool_s', like='gauss', n_dim=3, n_live=40, n_batch=20, n_eff=100, f_live=0.1,
         pool_s=2, n_networks=1)
     add('two_pool_s', like='two', n_live=60, n_batch=20, n_eff=120, f_live=0.1, n_points_min=5,
